@@ -34,6 +34,7 @@ class ACModel:
         self.prop_sets = []              # parsed 0xB0 sets
         self.prop_queries = []
         self.breeze_exclusive = True
+        self.prop_refuse = set()         # property ids whose writes the unit refuses (result byte 0x11, value unchanged)
         self.state_overrides = None      # raw byte overrides for the C0 body
         self.raw_state_body = None       # if set, reported verbatim as the 0xC0 body
         self.header_fill = bytes(5)      # frame header bytes 3..7 of rendered state frames
@@ -94,6 +95,9 @@ class ACModel:
                     rep = acprops.set_value_to_report(pid, value)
                     if pid == acprops.P_BUZZER:
                         recs.append((pid, 0x00, rep))
+                        continue
+                    if pid in self.prop_refuse:
+                        recs.append((pid, 0x11, self.props.get(pid, b"\x00")))      # "execution failed": the unit keeps its value
                         continue
                     self.props[pid] = rep
                     if self.breeze_exclusive:
